@@ -8,15 +8,17 @@
    works: only what reaches the inner service and what comes back is constrained. *)
 EXTENDS Integers, Sequences, FiniteSets, TLC
 CONSTANTS Callers, Insts, CfgSet
-VARIABLES cfg, rdy, key, gates, failed, st, ev
-vars == <<cfg, rdy, key, gates, failed, st, ev>>
+VARIABLES cfg, rdy, key, gates, failed, st, rerr, ev
+vars == <<cfg, rdy, key, gates, failed, st, rerr, ev>>
 InitWith(cf) ==
   /\ cfg = cf /\ rdy = [i \in Insts |-> FALSE] /\ key = [c \in Callers |-> 0]
   /\ gates = [c \in Callers |-> {}] /\ failed = [c \in Callers |-> FALSE] /\ st = [c \in Callers |-> "idle"]
+  /\ rerr = [c \in Callers |-> FALSE]
 Init == (\E cf \in CfgSet : InitWith(cf)) /\ ev = [e |-> "init"]
 Reset(cf) ==
   /\ cfg' = cf /\ rdy' = [i \in Insts |-> FALSE] /\ key' = [c \in Callers |-> 0]
   /\ gates' = [c \in Callers |-> {}] /\ failed' = [c \in Callers |-> FALSE] /\ st' = [c \in Callers |-> "idle"]
+  /\ rerr' = [c \in Callers |-> FALSE]
   /\ ev' = [e |-> "reset"]
 \* ---- the readiness protocol of the inner service, folded over what one step did to it
 RECURSIVE Fold(_, _, _)
@@ -43,27 +45,35 @@ Step(insts, ns, si, sc, sk) ==
   /\ (ns > 0 => sc \in Callers /\ st[sc] # "idle" /\ sk = key[sc])      \* the request reaches the inner service unchanged
   /\ gates' = (IF ns > 0 THEN [gates EXCEPT ![sc] = @ \cup (si..(si + ns - 1))] ELSE gates)
 \* retries = 0: exactly once; 1: again only after an inner failure; 2: hedged attempts at any time
+\* did an inner instance answer poll_ready with an error during this step?
+ReadyErr(s) == \E i \in 1..Len(s) : s[i].k = "ready" /\ s[i].res \notin {"ready", "pending"}
 OnceOK(c, g) == IF cfg.retries = 2 \/ (cfg.retries = 1 /\ failed[c]) THEN (Cardinality(g) >= 1 /\ Cardinality(g) <= 3) ELSE Cardinality(g) = 1
 OpReady(res, insts) ==
   /\ OuterReadyOK(res, insts) /\ Step(insts, 0, 0, 0, 0)
-  /\ ev' = [e |-> "op", name |-> "ready"] /\ UNCHANGED <<cfg, key, failed, st>>
+  /\ ev' = [e |-> "op", name |-> "ready"] /\ UNCHANGED <<cfg, key, failed, st, rerr>>
 OpOther(insts) ==
-  /\ Step(insts, 0, 0, 0, 0) /\ ev' = [e |-> "op"] /\ UNCHANGED <<cfg, key, failed, st>>
+  /\ Step(insts, 0, 0, 0, 0) /\ ev' = [e |-> "op"] /\ UNCHANGED <<cfg, key, failed, st, rerr>>
 Create(c, k, insts, ns, si, sc, sk) ==
   /\ st[c] = "idle" /\ st' = [st EXCEPT ![c] = "live"] /\ key' = [key EXCEPT ![c] = k]
   /\ LET f == Fold(rdy, TRUE, insts) IN
      /\ f[2] /\ rdy' = f[1]
      /\ (ns > 0 => sc = c /\ sk = k)
      /\ gates' = (IF ns > 0 THEN [gates EXCEPT ![c] = si..(si + ns - 1)] ELSE gates)
+  /\ rerr' = [rerr EXCEPT ![c] = ReadyErr(insts)]
   /\ ev' = [e |-> "create", c |-> c] /\ UNCHANGED <<cfg, failed>>
 PollPending(c, insts, ns, si, sc, sk) ==
   /\ st[c] = "live" /\ Step(insts, ns, si, sc, sk)
+  /\ rerr' = [rerr EXCEPT ![c] = @ \/ ReadyErr(insts)]
   /\ ev' = [e |-> "poll", c |-> c, res |-> "pending"] /\ UNCHANGED <<cfg, key, failed, st>>
 \* the call's response or error comes back unchanged, wrapped only in pass-through variants
 PollResult(c, res, kind, val, rq, insts, ns, si, sc, sk) ==
   /\ st[c] = "live" /\ Step(insts, ns, si, sc, sk) /\ st' = [st EXCEPT ![c] = "done"]
   /\ OnceOK(c, gates'[c])
-  /\ (IF res = "ok" THEN (rq = c /\ val \in gates'[c])
+  /\ rerr' = rerr
+  /\ (IF cfg.retries = 1 /\ (rerr[c] \/ ReadyErr(insts))
+      THEN \* the inner service failed readiness before a retry: it surfaces as that readiness error
+           (res = "err" /\ kind = "inner7")
+      ELSE IF res = "ok" THEN (rq = c /\ val \in gates'[c])
       ELSE /\ res = "err" /\ failed[c]
            /\ \/ (kind = "inner1" /\ val \in gates'[c])
               \/ (cfg.retries = 2 /\ kind = "allfailed"))          \* hedging: every started attempt failed (the layer's own condition)
@@ -71,10 +81,10 @@ PollResult(c, res, kind, val, rq, insts, ns, si, sc, sk) ==
 Complete(c, out, insts, ns, si, sc, sk) ==
   /\ Step(insts, ns, si, sc, sk)
   /\ failed' = (IF out = "ok" THEN failed ELSE [failed EXCEPT ![c] = TRUE])
-  /\ ev' = [e |-> "complete", c |-> c] /\ UNCHANGED <<cfg, key, st>>
+  /\ ev' = [e |-> "complete", c |-> c] /\ UNCHANGED <<cfg, key, st, rerr>>
 Other(insts, ns, si, sc, sk) ==      \* advance, drop of a finished future: spawned tasks may act
-  /\ Step(insts, ns, si, sc, sk) /\ ev' = [e |-> "other"] /\ UNCHANGED <<cfg, key, failed, st>>
+  /\ Step(insts, ns, si, sc, sk) /\ ev' = [e |-> "other"] /\ UNCHANGED <<cfg, key, failed, st, rerr>>
 End ==
   /\ \A c \in Callers : st[c] = "done" => OnceOK(c, gates[c])
-  /\ ev' = [e |-> "end"] /\ UNCHANGED <<cfg, rdy, key, gates, failed, st>>
+  /\ ev' = [e |-> "end"] /\ UNCHANGED <<cfg, rdy, key, gates, failed, st, rerr>>
 =============================================================================
